@@ -31,7 +31,7 @@ META = {
  "C06": dict(
   text="Metamorphic random testing of the module identifier: on generated valid graphs, one single-field mutation of one module must change exactly the identifiers of that module and of its descendants (harness-computed reachability), and the identity transformations (consistent rename incl. alias prefixes, insertion of unrelated modules/binaries, binary re-indexing) must change none; recomputation, reverse query order and exec.NewOutputModuleGraph must agree.",
   design_ref="DESIGN.md section 3, C06",
-  note="Three input-related mutation classes that leave the identifier unchanged are recorded findings (known_findings.json) and excluded by signature; update policy and value type are not in the property's list and are not asserted. Alias import is modelled by the rename transformation (prefix 'alias:'), not yet through the manifest reader.",
+  note="Three input-related mutation classes that leave the identifier unchanged are recorded findings (known_findings.json) and excluded by signature; update policy and value type are not in the property's list and are not asserted. Alias import is checked both as a rename transformation and through the real manifest reader (generated .spkg imported by a generated YAML manifest: prefixModules, reindexAndMergePackage).",
   technique="rapid random generation, metamorphic relations over single-field mutations"),
  "C07": dict(
   text="Random + bounded-exhaustive exploration of cache states: the universe is the set of real files a complete run leaves plus the partial stores harvested after each segment job plus truncated debris under dstore's temporary name; a case copies a subset (crash-point prefixes of the write order, single evictions, random subsets; thorough enumerates all 2^n subsets for universes of <= 12 files) into a fresh directory and re-runs the request: it must complete, its stream and final stores must satisfy the C01 oracle against the sequential execution, and every file it leaves that the clean run also leaves must decode to equivalent content.",
